@@ -159,6 +159,7 @@ const (
 	FaultWrapped         // a group of two errors wrapped with context: fmt.Errorf("ctx: %w", ggql.Errors{e1, e2}) - still one entry per member
 	FaultSecond          // the SECOND invocation of that (node, field) in the run fails, the first succeeds (a stateful resolver; only distinguishable where a field is invoked twice for one position: merged response keys)
 	FaultShared          // every failing call returns the same *ggql.Error instance (an application's sentinel error)
+	FaultTwin            // a group of two members that carry the SAME text (a batch lookup answering one sentinel per missing key): still one entry per member
 )
 
 // ArgRecord is what a resolver received.
